@@ -70,7 +70,9 @@ static void once_hook(int pt, const void * a, const void * b, long v) {
       if (i >= 0) wl_th[i] = wl_th[--wl_n];
       return;
     }
-    if (pt == MYTH_VP_YIELD_CB && wl_find(b) >= 0) { ctl_hook(-pt, a, b, v); return; }
+    /* the yield of a thread that is inside a wait loop (YIELD_CB, and whatever other point the
+       library reports on behalf of that thread while it switches) is part of the busy-wait */
+    if (pt > 0 && b && wl_find(b) >= 0) { ctl_hook(-pt, a, b, v); return; }
   }
   ctl_hook(pt, a, b, v);
 }
@@ -162,7 +164,8 @@ int main(int argc, char ** argv) {
   myth_globalattr_t ga; myth_globalattr_init(&ga); myth_globalattr_set_n_workers(&ga, W);
   myth_init_ex(&ga);
   ctl_init(W);
-  if (ctl_log) setvbuf(ctl_log, 0, _IOLBF, 0);      /* keep the trace if the library crashes */
+  if (ctl_log) setvbuf(ctl_log, 0, _IOLBF, 0);      /* keep the trace and the schedule if the library crashes */
+  if (ctl_sched_out) setvbuf(ctl_sched_out, 0, _IOLBF, 0);
   g_myth_verif_hook = once_hook;
   for (int i = 0; i < NC; i++) {
     kind_of[i] = (int)((pseed + i) % 3);
